@@ -75,6 +75,25 @@ def finish(run, args):
     for r in run.results:
         by_name.setdefault(r["name"], []).append(r)
 
+    import hashlib
+    src = run.E.src
+
+    def mod_sha(modname):
+        t = src.module_src.get(modname)
+        return hashlib.sha256(t.encode() if isinstance(t, str) else (t or b"")).hexdigest()[:16] if t is not None else None
+    cur_sources = {m: mod_sha(m) for m in sorted(src.module_src)}
+    base_sources = (baseline or {}).get("sources") or {}
+
+    def same_source_as_baseline(obname):
+        """the module the obligation's function lives in is byte-identical to the one the baseline was written from
+        (obligation names start with the function's qualified name)"""
+        mods = [m for m in cur_sources if obname.startswith(m + ".") or obname.startswith("lemma::")]
+        mods = [m for m in mods if not obname.startswith("lemma::")] or []
+        if not mods:
+            return False
+        m = max(mods, key=len)
+        return base_sources.get(m) is not None and base_sources.get(m) == cur_sources.get(m)
+
     for name, a in sorted(agg.items()):
         if a["verdict"] == "discharged":
             continue
@@ -118,7 +137,12 @@ def finish(run, args):
             fragile = (not sat) and baseline is not None and any(
                 b in ("z3", "cvc5") for b in (baseline.get("backends", {}).get(name) or []))
             changed_repr = sorted(getattr(run.E, "auto_fields", ()))
-            if changed_repr and not reproduced:
+            if (not sat) and (not reproduced) and base_names is not None and name in base_names and same_source_as_baseline(name):
+                # a candidate model (decidable weakening satisfiable, full query not decided even with the extended budget)
+                # for an obligation that was DISCHARGED on byte-identical source: the verification condition is the same
+                # formula as then, so this is the solver's budget, not the code
+                undecided.append((name, "not re-established within the solver budget; discharged at baseline on identical source"))
+            elif changed_repr and not reproduced:
                 # the class has fields the contracts do not know (its representation was changed): the abstraction in the
                 # contract no longer describes the object, so a failed proof without a natively reproduced input is not
                 # evidence of a defect
@@ -197,7 +221,8 @@ def finish(run, args):
         os.makedirs(os.path.join(VERIF, "baseline"), exist_ok=True)
         with open(os.path.join(VERIF, "baseline", pid + ".json"), "w") as f:
             json.dump(dict(property=pid, discharged=sorted(n for n, a in agg.items() if a["verdict"] == "discharged"),
-                           backends={n: a["backends"] for n, a in sorted(agg.items())}), f, indent=1)
+                           backends={n: a["backends"] for n, a in sorted(agg.items())},
+                           sources={m: h for m, h in cur_sources.items() if any(n.startswith(m + ".") for n in agg)}), f, indent=1)
     if getattr(args, "v", False):
         for name, a in sorted(agg.items()):
             print("  %-11s %6.2fs x%-3d %s %s" % (a["verdict"], a["secs"], a["instances"], ",".join(a["backends"]), name))
